@@ -355,11 +355,13 @@ def frame_steps(p, level="full"):
             out.append(call(X, "fillna", ("d", ((c, -1.5),))))
         if kinds[c] == "str":
             out.append(call(X, "fillna", "zz"))
-    # ---- map / apply
+    # ---- map / apply.  (pandas hands a UDF float scalars when a nullable-integer ARRAY contains NA and int scalars when it does not,
+    # so a UDF that reveals the scalar type ('tostr') sees different values for different partitionings: excluded for nullable columns)
+    nullable = any(k == "nullable" for k in kinds.values())
     out += [
         ("udf", X, "apply", "rowsum", "int64", (("axis", 1),)) if ("a" in cols and "g" in cols) else call(X, "isna"),
         ("udf", X, "apply", "rowstr", "object", (("axis", 1),)) if ("a" in cols and "g" in cols) else call(X, "notnull"),
-        ("udf", X, "map", "tostr", "auto", ()),
+        ("udf", X, "map", "tostr" if not nullable else "ident", "auto", ()),
         ("udf", X, "map", "ident", "auto", ()),
     ]
     # ---- rename
@@ -395,7 +397,7 @@ def series_steps(p, level="full"):
         call(X, "rename", "r"), call(X, "to_frame"), call(X, "to_frame", "q"), ("item", X, call(X, "notnull")), call(X, "isna"), call(X, "notnull"),
         B("==", X, L(v0)), B("!=", X, X), call(X, "isin", ("l", (v0, 4, "yy"))), call(X, "where", E(B("==", X, L(v0)))),
         call(X, "mask", E(B("==", X, L(v0)))), ("item", X, B("!=", X, L(v0))), ("udf", X, "map", "ident", "auto", ()),
-        ("udf", X, "apply", "tostr", "object", ()), call(X, "astype", "object"), call(X, "astype", "str"),
+        ("udf", X, "apply", "tostr" if k != "nullable" else "ident", "object" if k != "nullable" else "auto", ()), call(X, "astype", "object"), call(X, "astype", "str"),
     ]
     core = [call(X, "rename", "r"), call(X, "to_frame"), ("item", X, B("!=", X, L(v0)))]
     out = []
@@ -541,6 +543,15 @@ def same(got, want, ordered=True):
         return f"comparison raised {e!r}"[:300]
 
 
+def _decat(obj):
+    if isinstance(obj, pd.Series):
+        return obj.astype(object) if isinstance(obj.dtype, pd.CategoricalDtype) else obj
+    cats = [c for c, t in zip(obj.columns, obj.dtypes) if isinstance(t, pd.CategoricalDtype)]
+    if not cats or not obj.columns.is_unique:
+        return obj
+    return obj.astype({c: object for c in cats})
+
+
 def diff_class(got, want, ordered=True):
     """coarse, value-free description of HOW got differs from want (part of the finding key)"""
     try:
@@ -553,12 +564,14 @@ def diff_class(got, want, ordered=True):
             if len(got) != len(want):
                 return "length"
         if isinstance(want, (pd.DataFrame, pd.Series)):
-            g, w = _unrange(got), _unrange(want)
+            g0, w0 = _unrange(got), _unrange(want)
+            g, w = _decat(g0), _decat(w0)
             if dfh.equal(g, w, ordered=ordered, check_dtype=False) is None:
+                g, w = g0, w0
                 # only dtypes differ; categories in another order?
                 gd = list(g.dtypes) if isinstance(g, pd.DataFrame) else [g.dtype]
                 wd = list(w.dtypes) if isinstance(w, pd.DataFrame) else [w.dtype]
-                cat = [isinstance(a, pd.CategoricalDtype) and isinstance(b, pd.CategoricalDtype) and a != b and set(a.categories) == set(b.categories) and a.ordered == b.ordered for a, b in zip(gd, wd)]
+                cat = [isinstance(a, pd.CategoricalDtype) and isinstance(b, pd.CategoricalDtype) and list(a.categories) != list(b.categories) and set(a.categories) == set(b.categories) and a.ordered == b.ordered for a, b in zip(gd, wd)]
                 other = [a != b for a, b, c in zip(gd, wd, cat) if not c]
                 if any(cat) and not any(other):
                     return "categories-order"
